@@ -2,12 +2,16 @@
    Statements only; proofs in Proof/ReceiverTotal.v (chunked loop), Proof/ParserTotal.v
    (HTTPRequestParser.received), Proof/ParserTotalChan.v (HTTPChannel.received) and
    Proof/ParserTotalLimits.v (limits).  The error response itself (ErrorTask) is checked on
-   the real code by checks/C06.py (harness/limit_search.py, P3). *)
+   the real code by checks/C06.py (harness/limit_search.py, P3) and, since the C03 package
+   proved its frame theorems for error tasks, proved here by composition
+   (Proof/C06ErrWf.v: C06_error_response_wf). *)
+From Coq Require Import String.
 From Coq Require Import List NArith ZArith Bool.
 From RecordUpdate Require Import RecordUpdate.
 From WV Require Import Lib.PyBytes Model.Receiver Model.Parser Model.ChanSeq
   Proof.ReceiverTotal Proof.ParserTotal Proof.ParserTotalChan Proof.ParserTotalLimits
-  Proof.ParserTotalExamples.
+  Proof.ParserTotalExamples
+  Gen.GenTables Model.Task Spec.ClientParse Proof.TaskHead Proof.TaskFrameClient Proof.TaskFrame2Err Proof.C06ErrWf.
 Import ListNotations.
 Local Open Scope N_scope.
 
@@ -116,3 +120,48 @@ Proof.
   split; [exact (proj1 chunked_below) | exact (proj1 chunked_at)].
 Qed.
 Print Assumptions C06_boundaries.
+
+(* The error response.  Every refusal tag e of the parser model stands for an
+   instance of one of the four error classes of waitress/utilities.py, whose
+   (code, reason) pairs are regenerated from the source on every run
+   (Gen/GenTables.v); the class table agrees with the numeric code the limit and
+   framing theorems speak about ... *)
+Theorem C06_error_class_code : forall e, dec_value (fst (perr_class e)) = perr_code e.
+Proof. exact perr_class_code. Qed.
+Print Assumptions C06_error_class_code.
+
+(* ... and for EVERY tag, every message text (it may quote request bytes, CR and
+   LF included), every configuration with a clean ident / date and every request
+   version, the task the channel runs for a request with that error (Model/Task.v,
+   ErrorTask) writes bytes that an independent client (Spec/ClientParse.v) reads
+   as exactly one complete response with that status line, exactly
+   Content-Length body bytes, a single "Connection: close", nothing left over -
+   and the connection is closed, no further request is served.  (o_raw res = None:
+   the write itself did not fail, i.e. the client was still there.) *)
+Theorem C06_error_response_wf : forall c r a e body,
+  cfg_clean c -> r_error r = Some (perr_class e, body) -> r_head r = false ->
+  let res := run_task c r a None in
+  o_raw res = None ->
+  let code := fst (perr_class e) in let reason := snd (perr_class e) in
+  let bodyb := err_body c reason body in
+  exists fields,
+    parse_one false (wire (o_writes res))
+    = Some (mkResponse (sl_err (r_version r) (code ++ [32] ++ reason)) fields (FLength (lenN bodyb)) bodyb, [])
+    /\ filter (field_is (lit "connection"%string)) fields = [(lit "Connection"%string, lit "close"%string)]
+    /\ o_close res = true /\ o_next res = false /\ o_served_500 res = false /\ o_escaped res = None.
+Proof. exact error_response_wf. Qed.
+Print Assumptions C06_error_response_wf.
+
+(* the same for a refused HEAD request: head only (fix 7243240) *)
+Theorem C06_error_response_wf_head : forall c r a e body,
+  cfg_clean c -> r_error r = Some (perr_class e, body) -> r_head r = true ->
+  let res := run_task c r a None in
+  o_raw res = None ->
+  let code := fst (perr_class e) in let reason := snd (perr_class e) in
+  exists fields,
+    parse_one true (wire (o_writes res))
+    = Some (mkResponse (sl_err (r_version r) (code ++ [32] ++ reason)) fields FNoBody [], [])
+    /\ filter (field_is (lit "connection"%string)) fields = [(lit "Connection"%string, lit "close"%string)]
+    /\ o_close res = true /\ o_next res = false /\ o_served_500 res = false /\ o_escaped res = None.
+Proof. exact error_response_wf_head. Qed.
+Print Assumptions C06_error_response_wf_head.
